@@ -266,6 +266,10 @@ class Engine:
     level = "exploration"
     tiers: dict[str, dict[str, Any]] = {}
     selftest_runs = 200
+    # > 1: when a replay does not fail in a fresh interpreter, retry it as "the same
+    # recorded run executed up to N times in one process" (violations that need process
+    # history, e.g. state kept at class level between two parses)
+    replay_repeat_max = 1
     shrink_order: Sequence[str] = ()
     no_delete: Sequence[str] = ("cfg",)
 
@@ -645,6 +649,7 @@ def write_replay(
     original_len: int,
     shrink_execs: int,
     tier: str = "quick",
+    repeat: int = 1,
 ) -> str:
     os.makedirs(REPLAY_DIR, exist_ok=True)
     res, norm = run_record(eng, record, True)
@@ -656,6 +661,7 @@ def write_replay(
         "engine": eng.engine_name,
         "verif_seed": vseed,
         "tier": tier,
+        "repeat": repeat,
         "run": run,
         "run_seed": derive_seed(prop, vseed, run),
         "record": norm,
@@ -677,10 +683,18 @@ def replay_file(prop: str, path: str) -> int:
     with open(path) as f:
         doc = json.load(f)
     eng.prepare(doc.get("tier", "quick"), int(doc.get("verif_seed", 0)))
-    res, _ = run_record(eng, doc["record"], True)
-    for line in res.trace or []:
-        print("  " + line)
+    repeat = max(1, int(doc.get("repeat", 1)))
     want = doc["violation"]
+    res = None
+    for rep in range(repeat):
+        res, _ = run_record(eng, doc["record"], True)
+        if repeat > 1:
+            print(f"  -- execution {rep + 1} of {repeat} in this process")
+        for line in res.trace or []:
+            print("  " + line)
+        if res.violation is not None:
+            break
+    assert res is not None
     if res.violation is None:
         print(f"replay: no violation reproduced (expected {want['oracle']}:{want['call']})")
         return 0
@@ -688,7 +702,7 @@ def replay_file(prop: str, path: str) -> int:
     d = digest_of(res.trace or [])
     print(f"replay: {got.oracle} at step {got.step} in {got.call}: {got.detail}")
     print(f"replay: digest {d} (recorded {doc.get('digest')})")
-    same = got.oracle == want["oracle"] and got.call == want["call"] and d == doc.get("digest")
+    same = got.oracle == want["oracle"] and got.call == want["call"] and (repeat > 1 or d == doc.get("digest"))
     if not same:
         print("replay: a violation occurred but not the recorded one")
         return 3
@@ -824,6 +838,18 @@ def check(prop: str, tier: str) -> int:
             [PYTHON, "-m", "simverif", prop, "--replay", path],
             cwd=VERIF_DIR, env=env, capture_output=True, text=True, timeout=900,
         )
+        if p.returncode == 0 and eng.replay_repeat_max > 1:
+            # not reproduced by one execution in a fresh process: does it need history?
+            path = write_replay(prop, eng, vseed, run, small, v, n0, execs, tier, repeat=eng.replay_repeat_max)
+            p = subprocess.run(
+                [PYTHON, "-m", "simverif", prop, "--replay", path],
+                cwd=VERIF_DIR, env=env, capture_output=True, text=True, timeout=1800,
+            )
+            if p.returncode == 1:
+                print(
+                    f"note: the violation below needs process history: the replay executes the recorded "
+                    f"input up to {eng.replay_repeat_max} times in one process"
+                )
         if p.returncode != 1:
             print(
                 f"HARNESS-ERROR: replay of {path} in a fresh interpreter did not reproduce "
